@@ -77,8 +77,12 @@ func runC08(c *core.Ctx) {
 		return
 	}
 	// compare the whole grid through Get
+	var checkString func(op string, arr arrays.Array2D[int], gg *grid) bool
 	same := func(op string, arr arrays.Array2D[int], gg *grid) bool {
 		c.Count("grid_reads", 1)
+		if gg.w*gg.h <= 36 && !checkString(op, arr, gg) {
+			return false
+		}
 		for y := 0; y < gg.h; y++ {
 			for x := 0; x < gg.w; x++ {
 				var v int
@@ -92,6 +96,28 @@ func runC08(c *core.Ctx) {
 				}
 			}
 		}
+		return true
+	}
+	checkString = func(op string, arr arrays.Array2D[int], gg *grid) bool {
+		st := arr.String()
+		groups, toks, ok := parse2D(st)
+		if !ok {
+			fail(op+":String-format", fmt.Sprintf("after %s cannot parse String() %q", op, st))
+			return false
+		}
+		if groups != gg.h {
+			fail(op+":String-rows", fmt.Sprintf("after %s String() has %d row groups, height is %d: %q", op, groups, gg.h, st))
+			return false
+		}
+		var want []int
+		for y := 0; y < gg.h; y++ {
+			want = append(want, gg.m[y]...)
+		}
+		if !eqSlice(toks, want) {
+			fail(op+":String-cells", fmt.Sprintf("after %s String() lists %v, row-major cells are %v", op, toks, want))
+			return false
+		}
+		c.Count("strings", 1)
 		return true
 	}
 	val := 0
@@ -155,6 +181,7 @@ func runC08(c *core.Ctx) {
 		}
 		c.Count("rows", 1)
 		if w > 0 {
+			_ = a.String() // observed between taking the window and writing through it
 			x := r.Intn(w)
 			v := fresh()
 			row[x] = v // write through the slice
@@ -185,6 +212,7 @@ func runC08(c *core.Ctx) {
 				fail("RowSpan:contents", fmt.Sprintf("RowSpan(%d,%d,%d)=%v, model %v", x1, x2, y, sp, g.m[y][x1:x2+1]))
 				return
 			}
+			_ = a.String()
 			i := r.Intn(len(sp))
 			v := fresh()
 			sp[i] = v
@@ -343,27 +371,9 @@ func runC08(c *core.Ctx) {
 			c.Count("jagged_equal_rows", 1)
 		}
 	}
-	// 8. String
-	{
-		s := a.String()
-		groups, toks, ok := parse2D(s)
-		if !ok {
-			fail("String:format", fmt.Sprintf("cannot parse %q", s))
-			return
-		}
-		if groups != h {
-			fail("String:rows", fmt.Sprintf("String() has %d row groups, height is %d: %q", groups, h, s))
-			return
-		}
-		var want []int
-		for y := 0; y < h; y++ {
-			want = append(want, g.m[y]...)
-		}
-		if !eqSlice(toks, want) {
-			fail("String:cells", fmt.Sprintf("String() lists %v, row-major cells are %v", toks, want))
-			return
-		}
-		c.Count("strings", 1)
+	// 8. String (also checked after every mutation on small shapes)
+	if !checkString("final", a, g) {
+		return
 	}
 	c.Count("cases_completed", 1)
 	if w >= 1 && h >= 1 {
